@@ -285,6 +285,8 @@ Why(C, X, e) ==
              ELSE "sshut-other")
        [] e.k = "sshut-ret" ->
             (IF Casting(C, X, n) /\ Pend(C, X, n) # {} THEN "shutdown-returns-with-pending"
+             ELSE IF OwnShut(C, X, n) /\ X.cause[n] = "cancelled" THEN "shutdown-swallows-cancel-" \o byCause
+             ELSE IF AsMember(C, X, n) /\ X.sh[n] \in {"creq", "cing"} THEN "shutdown-swallows-cancel-" \o byCause
              ELSE IF Casting(C, X, n) THEN "shutdown-value"
              ELSE "sshut-ret-other")
        [] e.k = "sshut-cancel" -> "sshut-cancel-unexpected"
